@@ -273,6 +273,52 @@ pub fn long_skip_list(quick: bool) -> Vec<OpeningHoursExpression> {
     out
 }
 
+/// The shortcut family K: one input per shape the constant-expression shortcut
+/// (`OpeningHoursExpression::is_constant`, which makes `next_change_hint` answer "never") can
+/// see: sequences of up to three rules over {no selector, `Su`, `Jan 01`} × {full day, a span} ×
+/// the three kinds × every pair of rule operators.
+pub fn shortcut_family(quick: bool) -> Vec<OpeningHoursExpression> {
+    let ts = al::times();
+    let mods = al::modifiers();
+    let sels = [
+        DaySelector::default(),
+        DaySelector { weekday: al::weekdays()[1].clone(), ..Default::default() },
+        DaySelector { monthday: vec![crate::gen::ast::md_single(crate::gen::ast::fixed(None, 1, 1), Default::default())], ..Default::default() },
+    ];
+    let kinds = [&mods[0], &mods[1], &mods[2]];
+    let mut rules = Vec::new();
+    for s in &sels {
+        for k in kinds {
+            rules.push(al::mk_rule(s, &[], k));
+        }
+    }
+    rules.push(al::mk_rule(&sels[0], &ts[1], &mods[0]));
+    if !quick {
+        rules.push(al::mk_rule(&sels[1], &ts[1], &mods[0]));
+        rules.push(al::mk_rule(&sels[1], &ts[1], &mods[1]));
+        rules.push(al::mk_rule(&sels[2], &ts[3], &mods[2]));
+        rules.push(al::mk_rule(&sels[0], &ts[3], &mods[1]));
+    }
+    let mut out = Vec::new();
+    for a in &rules {
+        for b in &rules {
+            for op2 in al::OPERATORS {
+                out.push(expr(vec![a.clone(), with_op(b.clone(), op2)]));
+                for c in &rules {
+                    for op3 in al::OPERATORS {
+                        // quick tier: at most one operator of a triple differs from `;`
+                        if quick && op2 != RuleOperator::Normal && op3 != RuleOperator::Normal {
+                            continue;
+                        }
+                        out.push(expr(vec![a.clone(), with_op(b.clone(), op2), with_op(c.clone(), op3)]));
+                    }
+                }
+            }
+        }
+    }
+    out
+}
+
 pub fn family(cfg: &Cfg) -> Vec<Item> {
     let mut items: Vec<Item> = Vec::new();
     let mut seen = std::collections::HashSet::new();
@@ -298,6 +344,9 @@ pub fn family(cfg: &Cfg) -> Vec<Item> {
         if cfg.quick() && e.rules.iter().any(|r| !r.comments.is_empty()) {
             continue;
         }
+        push(&e, false, &mut items);
+    }
+    for e in shortcut_family(cfg.quick()) {
         push(&e, false, &mut items);
     }
     let r2 = al::r2();
